@@ -142,6 +142,17 @@ Example C14_partition_columns_nonvacuous :
   = Some (Hive, [([(s_ "k", VStr (s_ "a"))], 0%nat); ([(s_ "k", VStr (s_ "a"))], 1%nat); ([(s_ "k", VStr (s_ "b"))], 2%nat)]).
 Proof. vm_compute. split; reflexivity. Qed.
 
+(* "files whose schemas differ are rejected when verification is requested" - exactly: when the comparison decides
+   equality of the schemas (all attributes of all elements: the tie checks this of pf._schema != ... on every single-
+   attribute difference), verification raises iff some file's schema is not the first file's *)
+Theorem C14_verify_rejects_iff : forall (S : Type) (seqb : S -> S -> bool) (X : Type) basepath rel
+    (pf0 : pfile S X) (rest : list (pfile S X)),
+  (forall a b, reflect (a = b) (seqb a b)) ->
+  (legacy_merge S seqb X true basepath rel (pf0 :: rest) = MValueError S X
+   <-> exists pf, In pf rest /\ pf_schema S X pf <> pf_schema S X pf0).
+Proof. exact verify_rejects_iff. Qed.
+Print Assumptions C14_verify_rejects_iff.
+
 Example C14_nonvacuous :
   analyse_paths [s_ "/d/x/k=a/f0.parquet"; s_ "/d/x/k=b/f1.parquet"; s_ "/d/x/k=a/f2.parquet"] None
   = AOk (s_ "/d/x") [s_ "k=a/f0.parquet"; s_ "k=b/f1.parquet"; s_ "k=a/f2.parquet"] /\
